@@ -48,7 +48,7 @@ vars == <<nodeVars, plugVars>>
 HtlcIds == DOMAIN Cat
 
 \* bags as functions [element -> count >= 1]
-EmptyBag == <<>>
+NoTails == <<>>
 BagAdd(b, r) == IF r \in DOMAIN b THEN [b EXCEPT ![r] = @ + 1]
                 ELSE [x \in (DOMAIN b) \cup {r} |-> IF x = r THEN 1 ELSE b[x]]
 BagDel(b, r) == IF b[r] > 1 THEN [b EXCEPT ![r] = @ - 1]
@@ -104,7 +104,7 @@ Init ==
   /\ htlc = [i \in HtlcIds |-> Cat[i]]
   /\ table = [h \in Hashes |-> NoEntry]
   /\ own = [h \in Hashes |-> NoLc]
-  /\ tails = [h \in Hashes |-> EmptyBag]
+  /\ tails = [h \in Hashes |-> NoTails]
   /\ nextAtt = 1
   /\ lastAns = {}
   /\ budget = [pays |-> MaxPays, crashes |-> MaxCrash, w |-> MaxW, r |-> MaxR, direct |-> Direct]
@@ -453,7 +453,7 @@ Crash(lose) ==
   /\ NodeStep([t |-> "crash", lost |-> IF lose THEN lastAns ELSE {}], NoReaction)
   /\ table' = [h \in Hashes |-> NoEntry]
   /\ own' = [h \in Hashes |-> NoLc]
-  /\ tails' = [h \in Hashes |-> EmptyBag]
+  /\ tails' = [h \in Hashes |-> NoTails]
   /\ lastAns' = {}
   /\ budget' = [budget EXCEPT !.crashes = @ - 1]
   /\ UNCHANGED nextAtt
